@@ -118,6 +118,41 @@ def seq_b(rep, max_ch, ops, lines, expect, label):
                                   {'kind': 'seq', 'max': max_ch, 'ops': ops})
                 lines.append('c10.open')
                 expect.append(proj('raise'))
+        elif op[0] == 'withraise':
+            # a channel used in a with-block whose body raises: on the way out the channel is closed - at the broker too,
+            # with a Channel.Close handshake - before its number can be handed out again
+            live_ids = [o.channel_id for o in objs if not o.is_closed]
+            n_before = len(sc.sent)
+            got = {}
+            try:
+                with conn.channel(rpc_timeout=1) as wch:
+                    got['ch'] = wch
+                    raise KeyError('application error inside the with block')
+            except KeyError:
+                pass
+            except AMQPConnectionError:
+                if len(set(live_ids)) < max_ch:
+                    rep.violation('C10/raise-while-free', 'channel() raised with free ids (%s)' % label, {'kind': 'seq', 'max': max_ch, 'ops': ops})
+                lines.append('c10.open')
+                expect.append(proj('raise'))
+                continue
+            wch = got.get('ch')
+            if wch is None:
+                continue
+            objs.append(wch)
+            k = len(objs) - 1
+            closes = [c for c, name in sc.sent[n_before:] if name == 'Channel.Close' and c == wch.channel_id]
+            if wch.channel_id in live_ids:
+                rep.violation('C10/duplicate-live-id', 'channel() returned id %d which is in use (%s)' % (wch.channel_id, label),
+                              {'kind': 'seq', 'max': max_ch, 'ops': ops})
+            if not wch.is_closed or len(closes) != 1:
+                rep.violation('C10/number-freed-without-close-handshake', 'a with-block on channel %d was left with an exception: the channel is %s '
+                              'and %d Channel.Close frame(s) went to the broker (which still has the number open)' % (
+                                  wch.channel_id, 'closed locally' if wch.is_closed else 'still open', len(closes)),
+                              {'kind': 'seq', 'max': max_ch, 'ops': ops})
+                return
+            lines += ['c10.open', 'c10.opened %d' % k, 'c10.closeStart %d' % k, 'c10.closed %d' % k]
+            expect += ['id=%d obj=%d' % (wch.channel_id, k), None, None, proj('ok')]
         elif op[0] in ('close', 'bclose') and objs:
             k = op[1] % len(objs)
             o = objs[k]
@@ -456,7 +491,7 @@ def check(rep):
                               '%s: the library raised %r in a history in which every request is answered' % (stage.__name__, why),
                               {'kind': 'stage', 'stage': stage.__name__})
     # ---- SEQ-B sequences ------------------------------------------------------------------------
-    alphabet = [('open',), ('close', 0), ('close', 1), ('bclose', 0), ('bclose', 1)]
+    alphabet = [('open',), ('close', 0), ('close', 1), ('bclose', 0), ('bclose', 1), ('withraise',)]
     maxlen = 5 if not thorough else 7
     nb = 0
     for max_ch in (1, 2, 3):
@@ -465,7 +500,7 @@ def check(rep):
             if n > 4:
                 seqs = [tuple(rng.choice(alphabet) for _ in range(n)) for _ in range(400 if not thorough else 3000)]
             for ops in seqs:
-                if ops[0][0] != 'open':
+                if ops[0][0] not in ('open', 'withraise'):
                     continue
                 start = len(lines)
                 seq_b(rep, max_ch, list(ops), lines, expect, 'seq-b')
